@@ -32,6 +32,7 @@ def check(repo, tier="quick"):
     res.rule("C03.c", "picture numbers: the picture header / every fragment header of a picture carries the input picture's pic_num when given, and nothing else writes picture_number")
     res.rule("C03.d", "fragments: first fragment holds the transform parameters and no slices; every slice is appended exactly once, in raster order; a new fragment starts exactly when the previous one holds fragment_slice_count slices and carries the coordinates of its first slice")
     res.rule("C03.e", "shared clauses re-evaluated: data-unit patterns (C19.e), version implications (C07.c), level-filtered sequence headers (C15.e), lossless slice-size scaler fits the length field (C04.f)")
+    res.rule("C03.g", "no call in the encoder passes same-named coordinates/sizes to the wrong parameters, and no size guard is followed by a further decrement of the guarded quantity")
     res.rule("C03.f", "scratch State dictionaries the encoder builds for the pseudocode helpers (slice_bytes, picture_dimensions, ...) bind every key to its own source: codec_features[k] under key k, width()/height() of the slice array under the _x/_y key, a same-named local under its own name")
 
     rule_a(repo, res)
@@ -40,6 +41,10 @@ def check(repo, tier="quick"):
     rule_d(repo, res)
     rule_e(repo, res)
     rule_f(repo, res)
+    from .. import lints
+
+    lints.rule(repo, res, "C03.g", [n.split("vc2_conformance.", 1)[-1] for n in sorted(repo.modules) if n.startswith("vc2_conformance.encoder.")] + ["codec_features", "pseudocode.picture_encoding", "bitstream.vc2_autofill"])
+    res.floor("C03.g", 8)
     res.floor("C03.f", 4)
     res.floor("C03.a", 5)
     res.floor("C03.b", 4)
